@@ -54,6 +54,13 @@ Record based_struct (s a : struct) (f0 : field) (i : intty) (hrest : list field)
 
 Definition struct_ok (s : struct) : Prop := flat_struct s \/ exists a f0 i hrest, based_struct s a f0 i hrest.
 
+(* the members a value must type: all of them, except the leading @size member of a struct with a parent (it is not part of the value) *)
+Definition typed_members (s : struct) : list field :=
+  match base_struct tm s, struct_fields_nc s with
+  | Some _, f0 :: r => r
+  | _, l => l
+  end.
+
 (* admissible values, by struct nesting depth *)
 Fixpoint adm (n : nat) (t : string) (v : value) : Prop :=
   match v with
@@ -76,7 +83,7 @@ Fixpoint adm (n : nat) (t : string) (v : value) : Prop :=
       match lookup_struct tm cls with
       | Some s =>
         s_name s = cls /\ struct_ok s /\ map fst vs = map f_name (settable_fields s) /\
-        forall f, In f (struct_fields_nc s) -> member_typed tm (struct_fields_nc s) (adm n') v f
+        forall f, In f (typed_members s) -> member_typed tm (struct_fields_nc s) (adm n') v f
       | None => False
       end
     end
@@ -344,7 +351,7 @@ Proof.
   destruct (py_to_bytes w false total) as [szb| |] eqn:Hszb; cbn [bind] in Henc; try discriminate.
   destruct (serialize_fields_go OP tm (Rk k') a allfs total self false hrest) as [hr| |] eqn:Hhr; cbn [bind] in Henc; try discriminate.
   (* names: the size member's name occurs nowhere else *)
-  cbn [map] in Hnd. inversion Hnd as [|? ? Hsize_notin Hnd']; subst.
+  cbn [map] in Hnd. pose proof (NoDup_cons_iff (f_name f0) (map f_name (hrest ++ own_fields tm s))) as Hnd_iff. apply Hnd_iff in Hnd as [Hsize_notin Hnd']. fold own in Hsize_notin, Hnd'.
   assert (Hnsm_h : forall f, In f hrest -> not_size_member a f).
   { intros f Hf. unfold not_size_member. rewrite Hattr_a. apply String.eqb_neq. intros Heq. apply Hsize_notin. rewrite Hf0n, Heq.
     apply in_map, in_or_app. now left. }
@@ -379,7 +386,7 @@ Proof.
   assert (Hheader : dec_header_with OP tm (Rk k') a allfs (((szb ++ hr) ++ ob) ++ rest) = Ok (e1, total - Z.of_nat (length ob), total)).
   { unfold dec_header_with. rewrite Hpar. cbn [deserialize_loop]. rewrite Hf0c. unfold deserialize_field.
     rewrite (cond_local_none tm allfs [] f0 Hf0c). cbn [bind]. rewrite Hload0. cbn [bind fst snd find drain_queue]. rewrite Hf0n, Hloop_h. cbn [bind fst snd existsb].
-    rewrite String.eqb_refl. cbn [orb]. now rewrite Hsize_env. }
+    rewrite Hf0n, String.eqb_refl. cbn [orb]. now rewrite Hsize_env. }
   cbn [app] in Henv_h.
   destruct (loop_rt OP tm (Rk k') s allfs size_bad_now order_same_now get_bytes_bad_now (adm n) Hsub
               own hrest e1 self total ob [] [] Hnsm_o Hord_o Hnd' Henv_h (fun f Hf => Hty f (in_or_app _ _ _ (or_intror Hf))) Hob) as (e2 & Hloop_o & Henv_o & _).
@@ -411,5 +418,25 @@ Proof.
 Qed.
 
 End OneLevel.
+
+Theorem RT_all : forall n, RT n.
+Proof.
+  induction n as [|n IH]; intros k Hk t v b rest Hadm Henc.
+  - destruct v; try (cbn in Hadm; contradiction); (eapply RT_leaf; [lia | exact I | exact Hadm | exact Henc]).
+  - destruct v as [z|bs|l|cls vs|]; try (cbn in Hadm; contradiction).
+    + eapply RT_leaf; [lia | exact I | eapply adm_leaf_any; [exact I | exact Hadm] | exact Henc].
+    + eapply RT_leaf; [lia | exact I | eapply adm_leaf_any; [exact I | exact Hadm] | exact Henc].
+    + cbn [adm] in Hadm. destruct Hadm as (-> & Hadm). destruct (lookup_struct tm cls) as [s|] eqn:Hls; [|contradiction].
+      destruct Hadm as (Hname & Hok & Hvs & Hty).
+      destruct k as [|[|k']]; try lia.
+      assert (Hsub : forall t' v' b' rest', adm n t' v' -> enc_t (Rk k') t' v' = Ok b' ->
+                 dec_t (Rk k') t' (b' ++ rest') = Ok v' /\ size_t (Rk k') t' v' = Ok (Z.of_nat (length b')) /\ (0 < length b')%nat).
+      { intros t' v' b' rest' Ha He. cbn [Rk enc_t dec_t size_t] in *. apply (IH k' ltac:(lia) t' v' b' rest' Ha He). }
+      destruct Hok as [Hflat|(a & f0 & i & hrest & Hbased)].
+      * refine (struct_rt_flat n k' Hsub cls vs s b rest Hls Hname Hflat Hvs _ Henc).
+        intros f Hf. apply Hty. unfold typed_members. now rewrite (base_none s (fs_no_base s Hflat)).
+      * refine (struct_rt_based n k' Hsub cls vs s a f0 i hrest b rest Hls Hname Hbased Hvs _ Henc).
+        intros f Hf. apply Hty. unfold typed_members. rewrite (bs_base _ _ _ _ _ Hbased), (bs_all _ _ _ _ _ Hbased). exact Hf.
+Qed.
 
 End Flat.
